@@ -83,6 +83,15 @@ def synthetic_schedule(rng):
     # the schedule always covers the whole operand (what every dart.operation -> dart.schedule gives); operands larger than the
     # accessed range were tried first and are out of domain (see DESIGN.md section 7)
     over = {d: 0 for d in "mnk"}
+    partial = rng.random() < 0.15
+    if partial:
+        # an operand dimension that is not a multiple of the tile: the schedule covers the full tiles, a partial last tile remains
+        # (e.g. 20 rows on an 8-row array); the layout must still be one-to-one on the WHOLE operand
+        d_ = rng.choice("mnk")
+        if inner_b[d_] > 1:
+            over[d_] = rng.randrange(1, inner_b[d_])
+        else:
+            partial = False
     S = {d: sizes[d] + over[d] for d in "mnk"}
     el_in = rng.choice(["i8", "i8", "i16", "i32", "i64"])
     el_out = rng.choice(["i32", "i32", "i8", "i16", "i64"])
@@ -111,7 +120,7 @@ def synthetic_schedule(rng):
   }}
 }}
 """
-    return {"text": text, "kind": "synthetic_matmul" + ("+odd-inner" if odd else "") + ("+unit-dims" if unit else ""), "acc": "snax_gemmx", "pre": "insert-accfg-op{accelerator=snax_gemmx}"}
+    return {"text": text, "kind": "synthetic_matmul" + ("+odd-inner" if odd else "") + ("+unit-dims" if unit else "") + ("+partial-last-tile" if partial else ""), "acc": "snax_gemmx", "pre": "insert-accfg-op{accelerator=snax_gemmx}"}
 
 
 def merge_two(t1, t2):
